@@ -161,6 +161,8 @@ def programs_from(hists, prefix, rnd):
                 begun += 1
         if len(clients) < 2:
             continue
+        if i % 4 == 1:
+            after = -1      # a quarter of the programs run without a shutdown (the context is cancelled when all returned)
         progs.append({"id": "%s%d" % (prefix, i), "mode": "burst" if i % 3 == 2 else "free", "clients": clients,
                       "shutdown_after": after})
     return progs
@@ -485,9 +487,9 @@ def use_layer(pid, vh, work, seed, quick, stats):
     u = universe(["f1", "f2", "bx"], ("d1", "d2") if quick else ("d1", "d2", "d3"))
     scripts, model = use_j1_and_scripts(u, stats)
     total = len(scripts)
-    if not quick and total > 60000:
+    if not quick and total > 200000:
         rnd = random.Random(seed)
-        scripts = rnd.sample(scripts, 60000)
+        scripts = rnd.sample(scripts, 200000)
     up, sp, tp = os.path.join(work, "u_use.json"), os.path.join(work, "use.scripts.ndjson"), os.path.join(work, "use.trace.ndjson")
     json.dump(u, open(up, "w"))
     write_ndjson(sp, scripts)
@@ -713,9 +715,9 @@ def run(pid, tier, seed, replay):
         "trace_lines_walked_by_tlc": s1 + s2 + use_cov["trace_lines_walked_by_tlc"],
         "linearizability": {"histories": len(hs), "with_overlapping_calls": concurrent_runs, "not_linearizable": len(nonlin),
                             "search_states": s3},
-        "distinct_nontrivial": {"count": len(steps),
-                                "rule": "distinct loop steps observed on the real service: (map before, request, answer, map after) "
-                                        "and (released names, map after)"},
+        "distinct_nontrivial": len(steps),
+        "rule": "distinct loop steps observed on the real service: (map before, request, answer, map after) "
+                                    "and (released names, map after)",
         "exhaustive": seq_stat.get("runs", 0) == len(scripts),
         "exhaustive_scope": "every call of the alphabet (%d calls: reserve/can x %d deployments x lists of <= 2 of %d names, "
                             "duplicates and the empty list included; releases) from every reachable (in-use map, shut down or not) "
